@@ -3,9 +3,9 @@ import os, re, shutil
 from . import common as C
 
 MANIFEST = dict(
-   technique="Lean 4 proof (fromJS, a transcription of jsonschema/from.go over the JSON-Schema keyword AST, returns on every good document of a structured fragment J1 a schema that accepts exactly the valid instances; round trip as a corollary of C07; strict-mode theorems over a keyword table regenerated behaviourally from the code) + differential correspondence against FromJSONSchema/ParseAny, an independent validator on the original document and on the round-trip document, for generated documents over the whole documented keyword table incl. sibling keywords",
-   text="c11_equiv_partial: for every good document d of J1 (string/number with all bounds, multipleOf, pattern, listed formats, boolean, null, {}, true/false, arrays, closed tuples, objects with required properties and additionalProperties false/absent/schema, record objects, const, enum incl. mixed kinds, anyOf/oneOf/allOf, $ref), any strict flag and any strict-mode table: fromJS returns a schema s with jsValid d.doc x = acceptsDecoded s x for in-scope x. c11_roundtrip: on the closed, format-free part, jsValid (toDoc s) x = jsValid d.doc x (via C07). c11_enum_partial / c11_const_partial: const and enum with members of any scalar kind in any mixture (repeats, strings spelling other members' JSON text), validity by JSON equality jsonEq (Draft 2020-12: numbers by value, objects as maps, a string never equals the value it spells): the produced schema never panics and accepts exactly the instances equal to a member; c11_enum_members_accepted: no member is shadowed by another; c11_enum_scalar_instance: ANY member list (arrays, objects, null included) judges every scalar instance correctly. c11_strict_rejects / c11_strict_silent / c11_strict_full_false over the regenerated keyword table. Each excluded class has a witness theorem and a replayed instance.",
-   note="PARTIAL: outside good/J1 the pinned code violates the property (integer type, nullable unions, sibling keywords next to $ref/allOf/anyOf/oneOf/const/enum/format, keywords without type, open tuples, optional properties accepting null, required on the record path, open objects closed by the round trip, intersection semantics, strict mode silent/unreached keywords): open findings. Not modelled: recursive $ref (non-object cycles would overflow the stack in from.go), user regexes beyond the five emitted shapes, the round-trip document of const/enum with array/object members (their conversion and Parse behaviour IS modelled: fromEnumJ / parsePanicsJ, finding composite-literal, root documents only), format semantics (relative to a sample universe agreed on by gozod and the validator), round trip of format schemas. Trusted as for C07.",
+   technique="Lean 4 proof (fromJS, a transcription of jsonschema/from.go over the JSON-Schema keyword AST, returns on every good document of a structured fragment J1 a schema that accepts exactly the valid instances; round trip as a corollary of C07; const/enum over members of every JSON kind through a model of types/literal.go's literalEqual / reflect.DeepEqual on decoded Go values, proved equal to JSON equality; strict-mode theorems over a keyword table regenerated behaviourally from the code; frame theorems of the Lean converters over a go/ast-regenerated table of the keywords every from.go function reads) + differential correspondence against FromJSONSchema/ParseAny, an independent validator on the original document and on the round-trip document, for generated documents over the whole documented keyword table incl. sibling keywords and compositions of object schemas sharing property names + structure fingerprint of the transcribed functions",
+   text="c11_equiv_partial: for every good document d of J1 (string/number with all bounds, multipleOf, pattern, listed formats, boolean, null, {}, true/false, arrays, closed tuples, objects with required properties and additionalProperties false/absent/schema, record objects, const, enum incl. mixed kinds, anyOf/oneOf/allOf, $ref), any strict flag and any strict-mode table: fromJS returns a schema s with jsValid d.doc x = acceptsDecoded s x for in-scope x. c11_roundtrip: on the closed, format-free part, jsValid (toDoc s) x = jsValid d.doc x (via C07). const and enum with members and instances of EVERY JSON kind (scalars, null, arrays, objects, mixtures, repeats, strings spelling other members' JSON text), validity by JSON equality jsonEq (Draft 2020-12; proved reflexive and symmetric): literalEqual_eq (types/literal.go's comparison never panics and IS jsonEq), c11_const (full strength), c11_enum_partial (ParseAny = some (enumValidJ vs x) outside the nullable-union class), c11_enum_null_rejected (that class, exactly), c11_enum_members_accepted, c11_members_no_panic, legacy_composite_member_panics (the code before e48d4b1); c11_roundtrip_enum / c11_roundtrip_const (ToJSONSchema of the result validates the same instances when no member is an array) with witness_roundtrip_array_const. c11_strict_rejects / c11_strict_silent / c11_strict_full_false over the regenerated keyword table; strict_rejects_iff_read, documented_are_read, converter_reads_documented and the *_frame / reads_* pairs over the go/ast-regenerated reads table. Each excluded class has a witness theorem and a replayed instance.",
+   note="PARTIAL: outside good/J1 the pinned code violates the property (integer type, nullable unions, sibling keywords next to $ref/allOf/anyOf/oneOf/const/enum/format, keywords without type, open tuples, optional properties accepting null, required on the record path, open objects closed by the round trip, strict-sided intersections, array const/enum members flattened by the round trip, strict mode unreached keywords and contentEncoding/contentMediaType): open findings. Not modelled: recursive $ref (non-object cycles would overflow the stack in from.go), user regexes beyond the five emitted shapes, array/object const/enum members below the root (root documents only), format semantics (relative to a sample universe agreed on by gozod and the validator), round trip of format schemas. Trusted as for C07.",
    design="DESIGN.md §5 C11")
 
 MODULES = ["Gozod.Proofs.C11", "Gozod.Proofs.C11Reads"]
@@ -23,6 +23,8 @@ THEOREMS = ["Gozod.C11.c11_equiv_partial", "Gozod.C11.conv", "Gozod.C11.equivJ",
             "Gozod.C11.jsonEq_ofPrim", "Gozod.C11.jsonEq_str_left", "Gozod.C11.jsonEq_str_right",
             "Gozod.C11.deepEqual_eq", "Gozod.C11.literalEqual_eq", "Gozod.C11.ifaceEq_panics", "Gozod.C11.jsonEq_symm", "Gozod.C11.jsonEq_refl",
             "Gozod.C11.legacy_composite_member_panics", "Gozod.C11.witness_null_member", "Gozod.C11.c11_members_full_false",
+            "Gozod.C11.c11_roundtrip_enum", "Gozod.C11.c11_roundtrip_const", "Gozod.C11.rtLitValid_nonarray",
+            "Gozod.C11.witness_roundtrip_array_const", "Gozod.C11.c11_roundtrip_members_full_false",
             "Gozod.C11.convString_frame", "Gozod.C11.reads_convertString", "Gozod.C11.convNumber_frame", "Gozod.C11.reads_convertNumber",
             "Gozod.C11.convInteger_frame", "Gozod.C11.reads_convertInteger", "Gozod.C11.convArray_frame", "Gozod.C11.reads_convertArray",
             "Gozod.C11.reads_convertTuple", "Gozod.C11.convObject_frame", "Gozod.C11.reads_convertObject", "Gozod.C11.convByType_frame",
@@ -201,7 +203,8 @@ def run(res):
     res.coverage["rule"] = ("40 keywords x strict mode (behavioural table, regenerated into Gen/KeywordTable.lean); generated documents of depth <= 2 over the "
         "fragment (see notes/C11.md) x instances at / around every constant, wrong kinds, null, non-ASCII; const/enum: heterogeneous members of every JSON kind "
         "(null, booleans, 1 / 1.0 / 1e0, negatives, fractions, strings incl. empty and strings spelling other members' JSON text, repeats; arrays/objects in root "
-        "documents) x every member, every member's JSON text as a string, every string member read as JSON, near misses of each member; instance decoded with encoding/json; "
+        "documents, their round-trip document included) x every member, every member's JSON text as a string, every string member read as JSON, near misses of each member; instance decoded with encoding/json; "
+        "allOf/anyOf/oneOf over object members sharing property names x jointly built instances (a base valid for all members, one property varied at a time); "
         "observation = (ParseAny verdict or '!' for a panic, validator on original document, validator on round-trip document, integer-directed ParseAny verdict).")
     res.assumptions += ["instances are decoded with plain encoding/json (numbers are float64)",
                         "jsValid as in C07 (cross-checked against kaptinlin/jsonschema on every case)"]
